@@ -2,6 +2,7 @@
 PROP = dict(
         module='kernel', pkg='device/video/console', pkgname='console', harness=['console/c19_test.go'],
         n=dict(quick=300, thorough=6000),
+        anchors='C19.json', expr_imports=['Firefly.Gen.C19'],
         nontrivial=r'^[tv][wfs] .*\| .*\d:[0-9a-f]',
         rule='one evaluation = one trace line: a Write / Fill / Scroll (or SetFont, SetLogo, packColor, fbOffset, checksum) '
              'call on the real VgaTextConsole / VesaFbConsole whose framebuffer lies inside a pattern-filled host buffer, '
